@@ -59,6 +59,7 @@ def run(report, tier, seed):
         jobs = []
         jobs += list(known_finding_witnesses(sc))
         jobs += list(cross_packages(sc, quick))
+        jobs += list(literal_packages(sc))
         jobs += list(runtime_name_packages(sc, ybin, report))
         jobs += list(name_packages(sc, reserved, rng, quick))
         jobs += list(matrix_packages(sc, rng, seed, 3 if quick else 24, quick))
@@ -473,6 +474,39 @@ def name_packages(sc, reserved, rng, quick):
         pkg.defs.append({"kind": "record", "name": "R", "tparams": [], "fields": [("a", P("int32"))]})
         pkg.defs.append({"kind": "protocol", "name": "P", "steps": [("a", ("named", "R", []), True)]})
         yield Job(f"names:namespace-{ns}", sc.path(f"n-ns-{ns}"), pkg=pkg, manifest_extra=OPTION_SETS[2][1], compile_cpp=True, ndjson=True, namespace=ns)
+
+
+LITERALS_MODEL = """R: !record
+  fields:
+    a: int
+    f: double
+  computedFields:
+    l0: 1. + f
+    l1: .5 * f
+    l2: 1.e3 + f
+    l3: .5e-3 + f
+    l4: 1e3 + f
+    l5: 1e+3 + f
+    l6: 0x1F + a
+    l7: 0XaB + a
+    l8: 007 + a
+    l9: 12 + a
+    l10: 18446744073709551615 + 0
+    l11: 1.5e300 * f
+    s0: '"a\\"b"'
+    s1: "'it'"
+P: !protocol
+  sequence:
+    r: R
+"""
+
+
+def literal_packages(sc):
+    """every spelling of a literal the expression lexer accepts (a float without digits before or after the point, exponents, hexadecimal, leading
+    zeros, both quote styles), with every target switched on - the JSON dump included"""
+    yield Job("literals:all-targets", sc.path("lit-all"), model_text=LITERALS_MODEL, manifest_extra=OPTION_SETS[0][1], namespace="Lit")
+    yield Job("literals:cpp-compiled", sc.path("lit-cpp"), model_text=LITERALS_MODEL, manifest_extra=OPTION_SETS[2][1] + "json:\n  outputDir: ../out_json\n", compile_cpp=True, ndjson=True, namespace="Lit")
+    yield Job("literals:matlab-json", sc.path("lit-mj"), model_text=LITERALS_MODEL, manifest_extra=OPTION_SETS[5][1], namespace="Lit")
 
 
 def cross_packages(sc, quick):
